@@ -5,6 +5,20 @@ From Coq Require Import List Bool Arith Lia.
 Import ListNotations.
 From V Require Import Base.Bytes Model.Escape Proofs.EscapeP Model.Tok Proofs.TokP Model.Fmt Proofs.FmtP Proofs.TokSim.
 
+Section Gen.
+Variable X : Type.
+Variable pr : token -> list X.
+Hypothesis pr_text : forall r, pr (TText r) = [].
+Notation okd := (TokSim.okd X pr).
+Notation proj := (TokSim.proj X pr).
+Let okd_nil := TokSim.okd_nil X pr.
+Let okd_app := TokSim.okd_app X pr.
+Let okd_plain := TokSim.okd_plain X pr.
+Let okd_from_one := TokSim.okd_from_one X pr pr_text.
+Let okd_safe := TokSim.okd_safe X pr.
+Let proj_app := TokSim.proj_app X pr.
+Let proj_emit_text := TokSim.proj_emit_text X pr pr_text.
+
 (* ---- trimming ---- *)
 Lemma dropw_decomp s : exists q, uws_only q = true /\ s = q ++ dropw s.
 Proof.
@@ -101,10 +115,13 @@ Proof. unfold spaces. intro H. apply repeat_spec in H. discriminate. Qed.
 Definition astate (s : st) (e : bool) (n : bytes) (a : attrs) : Prop :=
   (s = TagName e n /\ a = []) \/ s = AfterAVq e n a \/ (exists a0 an, s = AttrN e n a0 an /\ a = a0 ++ [(an, [])]).
 
+(* the attribute a tokenizer reads back: the name, and the written value (escaped, whitespace collapsed) *)
+Definition wattr (kv : bytes * bytes) : bytes * bytes :=
+  (fst kv, let v := format_attr (snd kv) in if Fmt.nonempty v then escape_attr v else []).
 Lemma fmt_attr_run s e n a k val : astate s e n a -> wf_key k = true ->
-  exists s' v', run s (fmt_attr (k, val)) = (s', []) /\ astate s' e n (a ++ [(k, v')]).
+  exists s', run s (fmt_attr (k, val)) = (s', []) /\ astate s' e n (a ++ [wattr (k, val)]).
 Proof.
-  intros Hs Hk. unfold fmt_attr. cbn [fst snd]. set (v := format_attr val).
+  intros Hs Hk. unfold fmt_attr, wattr. cbn [fst snd]. set (v := format_attr val).
   destruct k as [|c k]; [discriminate|]. cbn [wf_key] in Hk. apply andb_true_iff in Hk. destruct Hk as [Hc Hk].
   pose proof (anamech_inv _ Hc) as (H1 & H2 & H3 & H4).
   assert (Hsp : forall rest, run s ([x20] ++ (c :: k) ++ rest) = run (AttrN e n a [c]) (k ++ rest)).
@@ -114,40 +131,47 @@ Proof.
   rewrite Hsp. rewrite run_app, attrn_run by assumption. cbv beta iota. cbn [app].
   destruct (nonempty v) eqn:Ev.
   - stp. red_tests. stp. red_tests. rewrite run_app, FmtP.escape_attr_inert. cbv beta iota. cbn [app].
-    stp. red_tests. cbn [run app]. exists (AfterAVq e n (a ++ [(c :: k, escape_attr v)])), (escape_attr v).
+    stp. red_tests. cbn [run app]. exists (AfterAVq e n (a ++ [(c :: k, escape_attr v)])).
     split; [reflexivity|]. right. left. reflexivity.
-  - cbn [run]. exists (AttrN e n a (c :: k)), []. split; [reflexivity|]. right. right. exists a, (c :: k). split; reflexivity.
+  - cbn [run]. exists (AttrN e n a (c :: k)). split; [reflexivity|]. right. right. exists a, (c :: k). split; reflexivity.
 Qed.
 Lemma fmt_attrs_run e n l : forall s a, astate s e n a -> forallb (fun kv => wf_key (fst kv)) l = true ->
-  exists s' a', run s (flat_map fmt_attr l) = (s', []) /\ astate s' e n a' /\ map fst a' = map fst a ++ map fst l.
+  exists s', run s (flat_map fmt_attr l) = (s', []) /\ astate s' e n (a ++ map wattr l).
 Proof.
   induction l as [|[k val] l IH]; intros s a Hs Hw.
-  - exists s, a. cbn. rewrite app_nil_r. auto.
+  - exists s. cbn. rewrite app_nil_r. auto.
   - cbn [forallb fst] in Hw. apply andb_true_iff in Hw. destruct Hw as [Hk Hw]. cbn [flat_map].
-    destruct (fmt_attr_run s e n a k val Hs Hk) as (s1 & v1 & Hr1 & Hs1).
-    destruct (IH s1 _ Hs1 Hw) as (s2 & a2 & Hr2 & Hs2 & Hm). rewrite run_app, Hr1, Hr2.
-    exists s2, a2. split; [reflexivity|split; [exact Hs2|]]. rewrite Hm, map_app. cbn. now rewrite <- app_assoc.
+    destruct (fmt_attr_run s e n a k val Hs Hk) as (s1 & Hr1 & Hs1).
+    destruct (IH s1 _ Hs1 Hw) as (s2 & Hr2 & Hs2). rewrite run_app, Hr1, Hr2.
+    exists s2. split; [reflexivity|]. cbn [map]. now rewrite <- app_assoc in Hs2.
 Qed.
 Lemma aclose_run s e n a : astate s e n a -> run s [x3e] = (Data [], emit_tag e n a).
 Proof.
   intros [[-> ->]|[->|(a0 & an & -> & ->)]]; stp; red_tests; cbn [run]; rewrite ?app_nil_r; reflexivity.
 Qed.
 Lemma fmt_open_okd t a : wf_tag t = true -> forallb (fun kv => wf_key (fst kv)) a = true ->
-  okd (fmt_open t a) [SStart t (map fst a)].
+  okd (fmt_open t a) (pr (TStart t (map wattr a))).
 Proof.
   intros Ht Ha txt. unfold fmt_open. destruct t as [|c t]; [discriminate|]. cbn [wf_tag] in Ht.
   apply andb_true_iff in Ht. destruct Ht as [Hc Ht].
   cbn [app]. stp. red_tests. stp. rewrite Hc. cbv beta iota.
   rewrite run_app, tagname_run by assumption. cbv beta iota. cbn [app].
-  destruct (fmt_attrs_run false (c :: t) a (TagName false (c :: t)) []) as (s' & a' & Hr & Hs' & Hm);
+  destruct (fmt_attrs_run false (c :: t) a (TagName false (c :: t)) []) as (s' & Hr & Hs');
     [left; auto|assumption|].
   rewrite run_app, Hr. cbv beta iota. rewrite (aclose_run _ _ _ _ Hs'). cbn [app].
   eexists _, _. split; [reflexivity|].
-  rewrite skel_app, skel_emit_text. cbn. rewrite Hm. reflexivity.
+  rewrite proj_app, proj_emit_text. cbn. now rewrite app_nil_r.
 Qed.
-Lemma fmt_close_okd t : wf_tag t = true -> okd (fmt_close t) [SEnd t].
+Lemma fmt_close_okd t : wf_tag t = true -> okd (fmt_close t) (pr (TEnd t)).
 Proof.
-  intros Ht txt. destruct (end_run txt t Ht) as (o & Hr & Hs). unfold fmt_close. rewrite Hr. eauto.
+  intros Ht txt. unfold fmt_close. destruct t as [|c t]; [discriminate|]. cbn [wf_tag] in Ht.
+  apply andb_true_iff in Ht. destruct Ht as [Hc Ht].
+  cbn [app]. stp. red_tests. stp.
+  assert (Hna : is_alpha x2f = false) by reflexivity. rewrite Hna. red_tests.
+  stp. rewrite Hc. cbv beta iota.
+  rewrite run_app, tagname_run by assumption. cbv beta iota. stp. red_tests. cbn [run].
+  eexists _, _. split; [reflexivity|].
+  cbn [app]. rewrite !proj_app, proj_emit_text. cbn [app emit_tag]. unfold TokSim.proj. cbn [flat_map]. now rewrite !app_nil_r.
 Qed.
 Lemma last_gt y : lt_ok (y ++ [x3e]).
 Proof. apply lt_ok_last; reflexivity. Qed.
@@ -162,12 +186,25 @@ Variables voids inlines phrasings : list bytes.
 Notation inline_children := (inline_children voids).
 Notation fmt_node := (fmt_node voids inlines phrasings).
 Notation mem := Fmt.mem.
-(* the skeleton of a tree as the formatter writes it: a void element has no end tag and no content *)
-Fixpoint fskel (n : node) : list sk :=
+(* the tags of a tree as the formatter writes them: attribute values escaped with whitespace collapsed,
+   a void element without end tag and content *)
+Fixpoint ftok (n : node) : list token :=
   match n with
   | Text _ => []
-  | Elem t a k => SStart t (map fst a) :: (if mem t voids then [] else flat_map fskel k ++ [SEnd t])
+  | Elem t a k => TStart t (map wattr a) :: (if mem t voids then [] else flat_map ftok k ++ [TEnd t])
   end.
+Definition fskel (n : node) : list X := proj (ftok n).
+Lemma fskel_text s : fskel (Text s) = []. Proof. reflexivity. Qed.
+Lemma proj_flat k : proj (flat_map ftok k) = flat_map fskel k.
+Proof. induction k as [|x r IH]; [reflexivity|]. cbn [flat_map]. now rewrite proj_app, IH. Qed.
+Lemma proj_cons x r : proj (x :: r) = pr x ++ proj r.
+Proof. reflexivity. Qed.
+Lemma fskel_elem t a k : fskel (Elem t a k) =
+  pr (TStart t (map wattr a)) ++ (if mem t voids then [] else flat_map fskel k ++ pr (TEnd t)).
+Proof.
+  unfold fskel at 1. cbn [ftok]. rewrite proj_cons. f_equal. destruct (mem t voids); [reflexivity|].
+  rewrite proj_app, proj_flat. f_equal. rewrite proj_cons. cbn. now rewrite app_nil_r.
+Qed.
 
 Lemma depth_kid x k : In x k -> depthn x <= forest_depth k.
 Proof. unfold forest_depth. induction k as [|y r IH]; cbn; [tauto|]. intros [->|H]; [lia|]. specialize (IH H). lia. Qed.
@@ -179,8 +216,11 @@ Lemma fskel_filter kids : flat_map fskel (filter nws kids) = flat_map fskel kids
 Proof.
   induction kids as [|c r IH]; [reflexivity|]. cbn [filter flat_map]. unfold nws at 1.
   destruct (ws_only c) eqn:E; cbn [negb flat_map]; [|now rewrite IH].
-  destruct c; [cbn; exact IH|discriminate].
+  destruct c; [rewrite fskel_text; exact IH|discriminate].
 Qed.
+
+Lemma okd_app_r a b S : okd a S -> okd b [] -> okd (a ++ b) S.
+Proof. intros Ha Hb. rewrite <- (app_nil_r S). now apply okd_app. Qed.
 
 Definition Q (fuel : nat) : Prop := forall kids, forest_depth kids <= fuel -> forallb wf kids = true ->
   okd (inline_children fuel kids) (flat_map fskel kids) /\ lt_ok (inline_children fuel kids).
@@ -195,22 +235,22 @@ Proof.
                   | Elem t a k => fmt_open t a ++ (if mem t voids then [] else inline_children f k ++ fmt_close t)
                   end).
   assert (HX : okd (flat_map inl kids) (flat_map fskel kids) /\ lt_ok (flat_map inl kids)).
-  { clear -IH Hd Hw. induction kids as [|c r IHr]; [split; [apply okd_nil|apply lt_ok_plain; tauto]|].
+  { induction kids as [|c r IHr]; [split; [apply okd_nil|apply lt_ok_plain; tauto]|].
     cbn [forallb] in Hw. apply andb_true_iff in Hw. destruct Hw as [Hwc Hwr].
     rewrite forest_depth_cons in Hd.
     destruct IHr as [R1 R2]; [lia|assumption|]. cbn [flat_map].
     assert (HC : okd (inl c) (fskel c) /\ lt_ok (inl c)).
-    { destruct c as [s|t a k]; cbn [inl fskel].
+    { destruct c as [s|t a k]; cbn [inl]; [rewrite fskel_text|rewrite fskel_elem].
       - destruct (piece_esc_text (S (length (normalize_inline s))) (normalize_inline s)) as [A B]. split; assumption.
       - cbn [wf] in Hwc. apply andb_true_iff in Hwc. destruct Hwc as [Hwc Hk].
         apply andb_true_iff in Hwc. destruct Hwc as [Ht Ha].
         pose proof (fmt_open_okd t a Ht Ha) as Ho.
         destruct (mem t voids).
-        + rewrite app_nil_r. split; [exact Ho|apply fmt_open_lt].
+        + rewrite !app_nil_r. split; [exact Ho|apply fmt_open_lt].
         + destruct (IH k) as [K1 K2]; [cbn [depthn] in Hd; fold (forest_depth k) in Hd; lia|exact Hk|].
           split.
-          * apply (okd_app _ _ [SStart t (map fst a)] (flat_map fskel k ++ [SEnd t]) Ho).
-            apply (okd_app _ _ _ [SEnd t] K1 (fmt_close_okd t Ht)).
+          * apply (okd_app _ _ (pr (TStart t (map wattr a))) (flat_map fskel k ++ (pr (TEnd t))) Ho).
+            apply (okd_app _ _ _ (pr (TEnd t)) K1 (fmt_close_okd t Ht)).
           * apply lt_ok_app; [apply fmt_open_lt|apply lt_ok_app; [exact K2|apply fmt_close_lt]]. }
     destruct HC as [C1 C2]. split; [now apply okd_app|now apply lt_ok_app]. }
   destruct HX as [X1 X2]. exact (okd_trim _ _ X1 X2).
@@ -225,7 +265,7 @@ Qed.
 
 Lemma P_step f : P f -> P (S f).
 Proof.
-  intros IH depth n Hd Hw. destruct n as [s|t a kids]; cbn [Fmt.fmt_node fskel].
+  intros IH depth n Hd Hw. destruct n as [s|t a kids]; cbn [Fmt.fmt_node]; [rewrite fskel_text|rewrite fskel_elem].
   - destruct (Fmt.nonempty (trimw s)); [|apply okd_nil].
     destruct (piece_esc_text (S (length (trimw s))) (trimw s)) as [A _].
     apply (okd_app _ _ [] [] (okd_plain _ (spaces_no_lt _))).
@@ -234,16 +274,16 @@ Proof.
     apply andb_true_iff in Hw. destruct Hw as [Ht Ha].
     assert (Hnl : okd [x0a] []) by (apply okd_plain; intros [E|[]]; discriminate).
     apply (okd_app _ _ [] _ (okd_plain _ (spaces_no_lt _))).
-    apply (okd_app _ _ [SStart t (map fst a)] _ (fmt_open_okd t a Ht Ha)).
+    apply (okd_app _ _ (pr (TStart t (map wattr a))) _ (fmt_open_okd t a Ht Ha)).
     destruct (mem t voids); [exact Hnl|].
     assert (Hdk : forest_depth kids <= f) by (cbn [depthn] in Hd; fold (forest_depth kids) in Hd; lia).
     destruct (filter (fun c => negb (ws_only c)) kids) as [|c0 cr] eqn:Ef.
     + assert (Hz : flat_map fskel kids = []).
       { rewrite <- fskel_filter. unfold nws. now rewrite Ef. }
-      rewrite Hz. cbn [app]. apply (okd_app _ _ [SEnd t] [] (fmt_close_okd t Ht) Hnl).
+      rewrite Hz. cbn [app]. apply (okd_app_r _ _ _ (fmt_close_okd t Ht) Hnl).
     + destruct (Fmt.keep_inline voids inlines phrasings f t kids).
       * destruct (Q_all f kids Hdk Hk) as [K1 _].
-        apply (okd_app _ _ _ [SEnd t] K1). apply (okd_app _ _ [SEnd t] [] (fmt_close_okd t Ht) Hnl).
+        apply (okd_app _ _ _ (pr (TEnd t)) K1). apply (okd_app_r _ _ _ (fmt_close_okd t Ht) Hnl).
       * rewrite <- Ef. rewrite <- (fskel_filter kids). fold nws.
         apply (okd_app _ _ [] _ Hnl).
         assert (Hkids : okd (flat_map (fmt_node f (S depth)) (filter nws kids)) (flat_map fskel (filter nws kids))).
@@ -253,9 +293,9 @@ Proof.
             - rewrite forallb_forall in Hk. now apply Hk. }
           induction (filter nws kids) as [|x r IHr]; [apply okd_nil|]. cbn [flat_map].
           apply okd_app; [apply IH; apply Hin; now left|apply IHr; intros y Hy; apply Hin; now right]. }
-        apply (okd_app _ _ _ [SEnd t] Hkids).
-        apply (okd_app _ _ [] [SEnd t] (okd_plain _ (spaces_no_lt _))).
-        apply (okd_app _ _ [SEnd t] [] (fmt_close_okd t Ht) Hnl).
+        apply (okd_app _ _ _ (pr (TEnd t)) Hkids).
+        apply (okd_app _ _ [] (pr (TEnd t)) (okd_plain _ (spaces_no_lt _))).
+        apply (okd_app_r _ _ _ (fmt_close_okd t Ht) Hnl).
 Qed.
 Lemma P_all : forall f, P f.
 Proof.
@@ -266,9 +306,40 @@ Qed.
 (* whatever bytes the text nodes and attribute values of a tree hold, and whichever layout each element
    gets, tokenizing the formatted text yields exactly the tree's elements in order with their attribute
    names (void elements without an end tag) *)
-Theorem fmt_skeleton n depth : wf n = true ->
-  skel (snd (run (Data []) (fmt_node (S (depthn n)) depth n))) = fskel n.
+Theorem fmt_tokens n depth : wf n = true ->
+  proj (snd (run (Data []) (fmt_node (S (depthn n)) depth n))) = proj (ftok n).
 Proof.
   intro Hw. destruct (P_all (S (depthn n)) depth n ltac:(lia) Hw []) as (t & o & Hr & Hs). now rewrite Hr.
 Qed.
 End L.
+End Gen.
+
+(* ---- the two instances ---- *)
+Definition tag1 (t : token) : list token := match t with TText _ => [] | x => [x] end.
+Definition tags (l : list token) : list token := flat_map tag1 l.
+Lemma tags_ftok voids n : tags (ftok voids n) = ftok voids n.
+Proof.
+  induction n as [s|t a k IH] using node_ind'; [reflexivity|]. cbn [ftok]. unfold tags. cbn [flat_map tag1 app]. f_equal.
+  destruct (Fmt.mem t voids); [reflexivity|]. fold (tags (flat_map (ftok voids) k ++ [TEnd t])).
+  unfold tags. rewrite flat_map_app. cbn. f_equal.
+  induction IH as [|x r Hx _ IHr]; [reflexivity|]. cbn [flat_map]. rewrite flat_map_app. fold (tags (ftok voids x)). now rewrite Hx, IHr.
+Qed.
+(* whatever bytes the text nodes and attribute values of a tree hold, and whichever layout each element
+   gets, the tags a tokenizer finds in the formatted text are exactly the tree's: every element in order, every
+   attribute in order with its name and its written value (escaped, whitespace collapsed), void elements
+   without an end tag *)
+Theorem fmt_tags voids inlines phrasings n depth : wf n = true ->
+  tags (snd (run (Data []) (fmt_node voids inlines phrasings (S (depthn n)) depth n))) = ftok voids n.
+Proof.
+  intro Hw. rewrite <- (tags_ftok voids n).
+  exact (fmt_tokens token tag1 (fun _ => eq_refl) voids inlines phrasings n depth Hw).
+Qed.
+Theorem fmt_skeleton voids inlines phrasings n depth : wf n = true ->
+  skel (snd (run (Data []) (fmt_node voids inlines phrasings (S (depthn n)) depth n))) = skel (ftok voids n).
+Proof. intro Hw. exact (fmt_tokens sk skel1 (fun _ => eq_refl) voids inlines phrasings n depth Hw). Qed.
+(* ... and a written value decodes to the formatted value *)
+Lemma wattr_decodes kv : dec_attr (length (snd (wattr kv))) (snd (wattr kv)) = format_attr (snd kv).
+Proof.
+  unfold wattr. cbn [snd]. destruct (format_attr (snd kv)) as [|c v] eqn:E; [reflexivity|].
+  cbn [Fmt.nonempty]. apply dec_escape_attr. lia.
+Qed.
